@@ -101,7 +101,8 @@ def work(chunk_id, payload):
                     script=text))
         if len(part["samples"]) < 1:
             part["samples"].append(dict(history=text.split("\n")[:25]))
-    # memcheck sample on the plain build
+    # memcheck sample on the plain build: uninitialised-value use, which
+    # ASan cannot see
     if memcheck_bin and nmem > 0:
         sub = cases[:nmem]
         mres = R.run_cases(memcheck_bin, sub, wd + "m", timeout=3600,
@@ -109,13 +110,11 @@ def work(chunk_id, payload):
         for cid, text in sub:
             res = mres[cid]
             cnt["memcheck_histories"] = cnt.get("memcheck_histories", 0) + 1
-            for ev in res.events:
-                pass
-            # valgrind errors are plain text lines "==pid== ..."
-            # collected by the runner as crash detail or ignored lines; parse
-            # from res.reports is not possible, so re-scan raw
-            for rep in getattr(res, "vg", []):
-                part["violations"].append(rep)
+            cnt["memcheck_operations"] = cnt.get("memcheck_operations", 0) + \
+                len(res.events)
+            v, inc = R.standard_violations(res, text, PROP)
+            part["violations"] += [x for x in v
+                                   if x["key"].startswith("memcheck:")]
     return part
 
 
@@ -129,7 +128,9 @@ def main():
     nhist = max(16, int(nhist * chk.args.scale))
     nchunks = 16 if chk.tier == "quick" else 64
     per = max(1, nhist // nchunks)
-    payloads = [(chk.seed, per, nops, binary, chk.workroot, None, 0)
+    membin = chk.build("plain")
+    memper = 2 if chk.tier == "quick" else 16
+    payloads = [(chk.seed, per, nops, binary, chk.workroot, membin, memper)
                 for i in range(nchunks)]
     for part in R.pmap(work, payloads):
         chk.merge(part)
